@@ -2,6 +2,9 @@ import QmcProofs.LawTree
 import QmcProofs.Diagonal
 import Mathlib.Data.Finset.Card
 import Mathlib.Data.Rat.Floor
+import Mathlib.Tactic.Ring
+import Mathlib.Tactic.Linarith
+import Mathlib.Order.Interval.Finset.Nat
 
 /-!
 # The idealisation step: weights of the tree nodes vs. uniformly random 64-bit words
@@ -18,8 +21,14 @@ decision `RS.genBool p` (= rand 0.8.8 `gen_bool`, validated against the real gen
   the free-spin refresh (`genBool_half_count`).
 
 `pick n` has weight `1/n` per outcome.  `RS.genRange n` is Lemire's multiply-and-reject
-(`UniformInt::sample_single`): `genRange_lt` (QmcProofs/RefinementSweep.lean) gives the range; the exact
-uniformity over the accepted words is not proved anywhere in this development (see design_notes/Law.md).
+(`UniformInt::sample_single`, zone `n·2^lz − 1`):
+
+* `genRange_single` — on a one-word script the word `u` is accepted with outcome `i` iff
+  `i·2^64 ≤ u·n ≤ i·2^64 + zone`;
+* `genRange_uniform` — **for every `i < n` exactly `2^lz` of the `2^64` words are accepted with outcome `i`**
+  (`lz = lz64 n`, `2^63 ≤ n·2^lz < 2^64`: `lz64_bounds`): conditional on acceptance the outcome is *exactly*
+  uniform, and a rejected word is followed by a fresh one, so `1/n` is the exact law of `genRange n` under
+  i.i.d. uniform words (the statement about the infinite redraw loop itself is not formalised).
 -/
 
 open Finset
@@ -95,5 +104,135 @@ theorem genBool_half_count :
         ((two64 : Nat) : Rat) = 1 / 2 :=
   genBool_frequency_exact (1 / 2) (by norm_num) (by norm_num) (2 ^ 63) (by
     unfold two64; norm_num)
+
+/-! ### `pick n`: exact uniformity of `gen_range(0..n)` over the accepted words -/
+
+/-- the zone of `genRange n` is `n·2^lz − 1` with `2^63 ≤ n·2^lz < 2^64` -/
+theorem lz64_bounds (n : Nat) (hn : 0 < n) (hn64 : n < two64) :
+    2 ^ 63 ≤ n * 2 ^ lz64 n ∧ n * 2 ^ lz64 n < two64 := by
+  have hne : n ≠ 0 := Nat.pos_iff_ne_zero.mp hn
+  have hk : n.log2 < 64 := (Nat.log2_lt hne).mpr hn64
+  have h1 := Nat.log2_self_le hne
+  have h2 : n < 2 ^ (n.log2 + 1) := Nat.lt_log2_self
+  unfold lz64 two64
+  have e63 : (2 : Nat) ^ 63 = 2 ^ n.log2 * 2 ^ (63 - n.log2) := by
+    rw [← Nat.pow_add]; congr 1; omega
+  have e64 : (2 : Nat) ^ 64 = 2 ^ (n.log2 + 1) * 2 ^ (63 - n.log2) := by
+    rw [← Nat.pow_add]; congr 1; omega
+  have hp : 0 < 2 ^ (63 - n.log2) := Nat.pow_pos (by norm_num)
+  constructor
+  · rw [e63]; exact Nat.mul_le_mul_right _ h1
+  · rw [e64]; exact Nat.mul_lt_mul_of_pos_right h2 hp
+
+theorem ceil_le_iff (a n u : Nat) (hn : 0 < n) : (a + n - 1) / n ≤ u ↔ a ≤ u * n := by
+  rw [← Nat.lt_succ_iff, Nat.div_lt_iff_lt_mul hn]
+  have : (u + 1) * n = u * n + n := by ring
+  rw [this]; omega
+
+/-- the multiples `u·n` in a window of length `n·m` starting at `a`: exactly `m` values of `u` -/
+theorem card_mul_window (n m a M : Nat) (hn : 0 < n) (hM : (a + n - 1) / n + m ≤ M) :
+    ((Finset.range M).filter (fun u => a ≤ u * n ∧ u * n < a + n * m)).card = m := by
+  have hc : ∀ u, (a + n - 1) / n ≤ u ↔ a ≤ u * n := fun u => ceil_le_iff a n u hn
+  generalize (a + n - 1) / n = c at hM hc
+  have h2 : ∀ u, u < c + m ↔ u * n < a + n * m := by
+    intro u
+    rw [← not_le, ← not_le (b := u * n)]
+    apply not_congr
+    have h8 : m * n = n * m := Nat.mul_comm _ _
+    constructor
+    · intro h
+      have hm : m ≤ u := by omega
+      have h4 : c ≤ u - m := by omega
+      have h5 := (hc (u - m)).mp h4
+      have h7 : u * n = (u - m) * n + m * n := by
+        rw [← Nat.add_mul]; congr 1; omega
+      omega
+    · intro h
+      have hm : m ≤ u := by
+        by_contra hcc
+        have : u * n < m * n := Nat.mul_lt_mul_of_pos_right (by omega) hn
+        omega
+      have h7 : u * n = (u - m) * n + m * n := by
+        rw [← Nat.add_mul]; congr 1; omega
+      have h5 : a ≤ (u - m) * n := by omega
+      have := (hc (u - m)).mpr h5
+      omega
+  have hsub : (Finset.range M).filter (fun u => a ≤ u * n ∧ u * n < a + n * m) = Finset.Ico c (c + m) := by
+    ext u
+    simp only [Finset.mem_filter, Finset.mem_range, Finset.mem_Ico, ← hc u, ← h2 u]
+    constructor
+    · exact fun h => h.2
+    · intro h
+      exact ⟨by omega, h⟩
+  rw [hsub, Nat.card_Ico]
+  omega
+
+
+/-- `gen_range(0..n)` on a one-word script: the word is accepted (no second word asked for) with outcome `i`
+iff `u·n` lies in the window `[i·2^64, i·2^64 + zone]` -/
+theorem genRange_single (n u i : Nat) (hn : 0 < n) (hu : u < two64) :
+    (((RS.ofScript [u]).genRange n).2.short = false ∧ ((RS.ofScript [u]).genRange n).1 = i) ↔
+      ((u * n) % two64 ≤ (n * 2 ^ lz64 n) % two64 - 1 ∧ (u * n) / two64 = i) := by
+  have hne : n ≠ 0 := Nat.pos_iff_ne_zero.mp hn
+  unfold genRange
+  rw [if_neg hne]
+  simp only [RS.ofScript, List.length_cons, List.length_nil, Nat.zero_add]
+  show ((genRangeLoop n ((n * 2 ^ lz64 n) % two64 - 1) (1 + 1) { script := [u] }).2.short = false ∧
+    (genRangeLoop n ((n * 2 ^ lz64 n) % two64 - 1) (1 + 1) { script := [u] }).1 = i) ↔ _
+  simp only [genRangeLoop, RS.next, Nat.mod_eq_of_lt hu, Bool.false_eq_true, if_false]
+  by_cases hacc : (u * n) % two64 ≤ (n * 2 ^ lz64 n) % two64 - 1
+  · simp [hacc]
+  · simp [hacc]
+
+/-- **the counting fact behind `pick n`**: for every outcome `i < n`, exactly `2^lz` of the `2^64` equally
+likely words are accepted by `gen_range(0..n)` with outcome `i` (Lemire's multiply-and-reject with the zone
+`n·2^lz − 1`) — conditional on acceptance the outcome is exactly uniform, and a rejected word is followed by an
+independent fresh word -/
+theorem genRange_uniform (n : Nat) (hn : 0 < n) (hn64 : n < two64) (i : Nat) (hi : i < n) :
+    ((Finset.range two64).filter (fun u => ((RS.ofScript [u]).genRange n).2.short = false ∧
+      ((RS.ofScript [u]).genRange n).1 = i)).card = 2 ^ lz64 n := by
+  obtain ⟨hZ1, hZ2⟩ := lz64_bounds n hn hn64
+  have hM : 0 < two64 := by unfold two64; norm_num
+  have hZmod : (n * 2 ^ lz64 n) % two64 = n * 2 ^ lz64 n := Nat.mod_eq_of_lt hZ2
+  have hZpos : 0 < n * 2 ^ lz64 n := lt_of_lt_of_le (by norm_num) hZ1
+  have hfilt : (Finset.range two64).filter (fun u => ((RS.ofScript [u]).genRange n).2.short = false ∧
+      ((RS.ofScript [u]).genRange n).1 = i) =
+      (Finset.range two64).filter (fun u => i * two64 ≤ u * n ∧ u * n < i * two64 + n * 2 ^ lz64 n) := by
+    apply Finset.filter_congr
+    intro u hu
+    rw [genRange_single n u i hn (Finset.mem_range.mp hu), hZmod]
+    have hdm := Nat.div_add_mod (u * n) two64
+    have hml := Nat.mod_lt (u * n) hM
+    constructor
+    · rintro ⟨h1, h2⟩
+      rw [h2, Nat.mul_comm] at hdm
+      omega
+    · rintro ⟨h1, h2⟩
+      have hdiv : u * n / two64 = i := by
+        rw [Nat.div_eq_iff hM]
+        constructor
+        · exact h1
+        · have : (i + 1) * two64 = i * two64 + two64 := by ring
+          omega
+      rw [hdiv, Nat.mul_comm] at hdm
+      exact ⟨by omega, hdiv⟩
+  rw [hfilt]
+  generalize 2 ^ lz64 n = m at hZ2 ⊢
+  refine card_mul_window n m (i * two64) two64 hn ?_
+  -- the window of the largest outcome still ends below 2^64
+  generalize hcdef : (i * two64 + n - 1) / n = c
+  have h1 : c * n ≤ i * two64 + n - 1 := by rw [← hcdef]; exact Nat.div_mul_le_self _ n
+  by_contra hc
+  have hc' : two64 + 1 ≤ c + m := by omega
+  have h2 : (two64 + 1) * n ≤ (c + m) * n := Nat.mul_le_mul_right _ hc'
+  have e1 : (c + m) * n = c * n + m * n := Nat.add_mul _ _ _
+  have e2 : (two64 + 1) * n = two64 * n + n := by ring
+  have e3 : two64 * n = n * two64 := Nat.mul_comm _ _
+  have e4 : m * n = n * m := Nat.mul_comm _ _
+  have h5 : i * two64 + two64 ≤ n * two64 := by
+    have : (i + 1) * two64 ≤ n * two64 := Nat.mul_le_mul_right _ hi
+    have e : (i + 1) * two64 = i * two64 + two64 := by ring
+    omega
+  omega
 
 end Qmc.Law
